@@ -16,6 +16,9 @@
 //!   S ok <slot>*10 | S err                                        check_error_details
 //!   G <slot>*10                                                   the ten get_details_* getters
 //!   D <n> <k>                                                     get_error_details_vec().len(), #present in get_error_details()
+//!
+//! `x <trip> <pre> <obs> <hist> <vec|set|raw case>`: the same round trip taken another way (other
+//! entry points, histories, metadata under reserved names, fuller observation) — see c20_x.rs.
 use crate::common::*;
 use http::HeaderMap;
 use prost::Message;
@@ -28,6 +31,9 @@ use tonic_types::{
     LocalizedMessage, PreconditionFailure, PreconditionViolation, QuotaFailure, QuotaViolation,
     RequestInfo, ResourceInfo, RetryInfo, StatusExt,
 };
+
+#[path = "c20_x.rs"]
+mod x;
 
 // ---------------------------------------------------------------------------------------------
 // token cursor
@@ -274,6 +280,11 @@ fn observe(st: Status) -> String {
         Some(s) => s,
         None => return "hdr-fail-parse".into(),
     };
+    render_recovered(&st)
+}
+
+/// the `T … M …` head of an observation: the outer status after the header trip
+fn render_head(st: &Status) -> String {
     let mut out = format!("T {} {} {}", st.code() as i32, hs(st.message()), hex(st.details()));
     let mut meta: Vec<(String, String)> = st
         .metadata()
@@ -288,6 +299,11 @@ fn observe(st: Status) -> String {
     for (k, v) in meta {
         out.push_str(&format!(" {} {}", hs(&k), v));
     }
+    out
+}
+
+fn render_recovered(st: &Status) -> String {
+    let mut out = render_head(st);
     match pb::Status::decode(st.details()) {
         Ok(p) => out.push_str(&format!(" E ok {} {} {}", p.code, hs(&p.message), p.details.len())),
         Err(_) => out.push_str(" E err"),
@@ -345,8 +361,13 @@ fn parse_meta(c: &mut Cur) -> Option<MetadataMap> {
 /// `style`: 0 = `set_*`, 1 = `add_*` per violation/link, 2 = the first present detail goes through the
 /// `ErrorDetails::with_*` constructor (the single-violation form when it has exactly one element), the rest `set_*`.
 fn build_set(c: &mut Cur, style: u8) -> Option<ErrorDetails> {
+    build_set_from(c, style, ErrorDetails::new())
+}
+
+/// the same, starting from a value that already holds details (`x` cases: reconfiguration)
+fn build_set_from(c: &mut Cur, style: u8, seed: ErrorDetails) -> Option<ErrorDetails> {
     let style_add = style == 1;
-    let mut d = ErrorDetails::new();
+    let mut d = seed;
     let mut first = style == 2;
     for slot_ix in 0..10 {
         if c.peek()? == "-" {
@@ -508,6 +529,9 @@ fn build_status(case: &str) -> Option<Status> {
 }
 
 pub fn execute(case: &str) -> String {
+    if case.starts_with("x ") {
+        return x::execute(case);
+    }
     match build_status(case) {
         Some(st) => observe(st),
         None => "bad-case".into(),
@@ -1211,5 +1235,6 @@ pub fn generate(tier: &str, rng: &mut Rng) -> Vec<String> {
             .collect();
         out.push(raw_case(&b));
     }
+    out.extend(x::generate(thorough, rng));
     out
 }
